@@ -425,7 +425,7 @@ func newFsrv(kind string) *fsrv {
 		s.restart = func() { s.rebind(uc, start) }
 		start = func(uc *net.UDPConn) {
 			qt := &quic.Transport{Conn: uc, StatelessResetKey: &s.resetKey}
-			ql, err := qt.Listen(&tls.Config{Certificates: []tls.Certificate{s.cert}, NextProtos: []string{"doq"}}, &quic.Config{MaxIdleTimeout: 10 * time.Second})
+			ql, err := qt.Listen(&tls.Config{Certificates: []tls.Certificate{s.cert}, NextProtos: []string{"doq"}}, &quic.Config{MaxIdleTimeout: 10 * time.Second, MaxIncomingStreams: quicStreamLimit.Load()})
 			if err != nil {
 				panic(err)
 			}
@@ -493,6 +493,10 @@ func newFsrv(kind string) *fsrv {
 
 var smallBuffers atomic.Bool
 
+// quicStreamLimit: bidirectional streams the next DoQ server allows per connection (0: quic-go's default, 100)
+var quicStreamLimit atomic.Int64
+var fsrvMu sync.Mutex
+
 type stallListener struct {
 	net.Listener
 	s *fsrv
@@ -536,7 +540,13 @@ func (s *fsrv) url() string {
 func faultScenario(kind, fault string, rng *rand.Rand) {
 	sc := fmt.Sprintf("%s/%s", kind, fault)
 	smallBuffers.Store(fault == "sndbuf" || fault == "sndbuf2" || fault == "sndbuf3")
+	fsrvMu.Lock()
+	if fault == "streamlimit" {
+		quicStreamLimit.Store(2)
+	}
 	s := newFsrv(kind)
+	quicStreamLimit.Store(0)
+	fsrvMu.Unlock()
 	defer s.close()
 	var dials atomic.Int32
 	idle := time.Duration(0)
@@ -625,6 +635,22 @@ func faultScenario(kind, fault string, rng *rand.Rand) {
 		for i := 0; i < 3; i++ {
 			one(1500*time.Millisecond, "reply")
 		}
+	case "streamlimit":
+		// the server allows two streams per connection and answers nothing: two exchanges hold the streams, a
+		// third with a short deadline still ends by its deadline (waiting for a free stream is bounded by the
+		// caller's context)
+		s.fault.Store("noreply")
+		var wg sync.WaitGroup
+		for i := 0; i < 2; i++ {
+			wg.Add(1)
+			go func() { defer wg.Done(); one(2500*time.Millisecond, "any") }()
+		}
+		time.Sleep(150 * time.Millisecond)
+		for i := 0; i < 2; i++ {
+			wg.Add(1)
+			go func() { defer wg.Done(); one(300*time.Millisecond, "any") }()
+		}
+		wg.Wait()
 	case "halfsteady":
 		// a reply frame whose length field lies wedges the reader of one multiplexed connection while queries keep
 		// coming (so the connection is never without a waiter). The connection's idle time-out (400 ms here) must
@@ -830,7 +856,7 @@ func modeFault(thorough bool) {
 	onlyEvents = map[string]bool{} // hook and server events are not needed here
 	rng := rand.New(rand.NewSource(seed))
 	kinds := []string{"udp", "tcp", "tcp+pipeline", "tls", "tls+pipeline", "https", "quic", "h3"}
-	faults := []string{"refuse", "silent", "noreply", "half", "garbage", "fin", "rst", "stall", "stale", "kill", "sndbuf", "sndbuf2", "sndbuf3", "eol", "restart", "garbage2nd", "halfsteady"}
+	faults := []string{"refuse", "silent", "noreply", "half", "garbage", "fin", "rst", "stall", "stale", "kill", "sndbuf", "sndbuf2", "sndbuf3", "eol", "restart", "garbage2nd", "halfsteady", "streamlimit"}
 	var wg sync.WaitGroup
 	sem := make(chan struct{}, 6)
 	only := map[string]bool{}
@@ -851,6 +877,9 @@ func modeFault(thorough bool) {
 				continue
 			}
 			if f == "halfsteady" && !(k == "tcp+pipeline" || k == "tls+pipeline") {
+				continue
+			}
+			if f == "streamlimit" && k != "quic" {
 				continue
 			}
 			if f == "restart" && !(k == "quic" || k == "h3") {
